@@ -121,6 +121,17 @@ func Parse(obj types.Object, opts *ParseOpts, localOpts LocalOpts) (*Definition,
 
 		methodDef.RawArgs = append(methodDef.RawArgs, arg)
 	}
+	for name := range localOpts.Context {
+		found := false
+		for _, arg := range methodDef.RawArgs {
+			if arg.Name == name {
+				found = true
+			}
+		}
+		if !found {
+			return nil, formatErr(fmt.Sprintf("Argument %q must exist when using 'goverter:context %s'", name, name))
+		}
+	}
 	if !methodDef.UpdateTarget && opts.UpdateParam != "" {
 		return nil, formatErr(fmt.Sprintf("Argument %q must exist when using 'goverter:target %s'", opts.UpdateParam, opts.UpdateParam))
 	}
